@@ -756,6 +756,22 @@ class FnWeaver:
                 self.edits.append((off, off, [(' let %s = &mut %s[%s_idx];' % (x, e, x), 'repo', self.rel, self.line_at(off))]))
                 self.rules.add('D23')
 
+    def loop_index_name(self, n):
+        """`$IDXn` in template text: the name of the index variable of `for` loop n as woven -- the variable rule D23 introduces (`x_idx`), or the
+        loop's own variable when it is written `for i in A..B` in the source.  Lets invariants and hints survive a change between those two forms."""
+        s = self.src
+        ls = self.loops()
+        if n < 1 or n > len(ls):
+            return '__no_such_loop_%d' % n
+        kw, ob = ls[n - 1]
+        hdr = s.text[s.toks[kw][1]:s.toks[ob][1]]
+        m = re.match(r'for (\w+) in ([\w\.]+)\.iter\(\)\.flatten\(\)\s*$', hdr) or re.match(r'for (\w+) in ([\w\.]+)\.iter_mut\(\)\.take\(([\w\.]+)\)\s*$', hdr)
+        if m or n in getattr(self, 'array_loops', set()):
+            m = m or re.match(r'for (\w+) in ', hdr)
+            return m.group(1) + '_idx'
+        m = re.match(r'for (\w+) in ', hdr)
+        return m.group(1) if m else '__loop_%d_has_no_index' % n
+
     def array_loop(self, n):
         """D23 (requested): `for x in EXPR {B}` with EXPR a fixed-size array by value -> `let __arrN = EXPR; for x_idx in 0..__arrN.len() { let x = __arrN[x_idx]; B }`"""
         s = self.src
@@ -764,6 +780,7 @@ class FnWeaver:
             self.lost.append('loop %d of %s (function has %d loops)' % (n, self.qual, len(ls)))
             return
         kw, ob = ls[n - 1]
+        self.array_loops = getattr(self, 'array_loops', set()) | {n}
         a, b = s.toks[kw][1], s.toks[ob][1]
         m = re.match(r'for (\w+) in (.*?)\s*$', s.text[a:b], re.S)
         if not m:
@@ -791,8 +808,24 @@ class FnWeaver:
     def io_error_calls(self):
         """D25 (automatic): `io::Error::new(io::ErrorKind::K, "text")` becomes `io_error_unverified()` (shims/io_stream.rs): a boxed `dyn Error` payload is
         outside Verus' subset, and no contract distinguishes one io::Error value from another"""
-        for m in re.finditer(r'io::Error::new\(\s*io::ErrorKind::\w+,\s*"[^"\n]*",?\s*\)', self.text):
-            a, b = m.start(), m.end()
+        s = self.src
+        spans = []
+        for m in re.finditer(r'io::Error::new\(', self.text):
+            # token of the opening parenthesis, then its match: the whole call is replaced whatever the message expression is, provided it contains
+            # no call other than `format!` (a message cannot change state then)
+            par = None
+            for k in s.code:
+                if s.toks[k][1] == m.end() - 1:
+                    par = k
+                    break
+            if par is None:
+                continue
+            close = s.matches()[par]
+            inner = ''.join(s.text[s.toks[t][1]:s.toks[t][2]] if s.toks[t][0] != 'str' else '""' for t in range(par + 1, close))
+            if re.search(r'[A-Za-z_][A-Za-z0-9_]*\s*\(', inner.replace('format!(', '')):
+                continue
+            spans.append((m.start(), s.toks[close][2]))
+        for (a, b) in spans:
             nl = self.text[a:b].count('\n')
             self.edits.append((a, b, [('io_error_unverified()' + '\n' * nl, 'repo', self.rel, self.line_at(a))]))
             self.rules.add('D25')
@@ -957,6 +990,8 @@ class FnWeaver:
             if a > pos:
                 out.emit(self.text[pos:a], 'repo', self.rel, self.line_at(pos), fn=self.qual)
             for (txt, kind, file, line) in segs:
+                if kind == 'tmpl' and '$IDX' in txt:
+                    txt = re.sub(r'\$IDX(\d+)', lambda m: self.loop_index_name(int(m.group(1))), txt)
                 out.emit(txt, kind, file, line, fn=self.qual)
             pos = b
         out.emit(self.text[pos:], 'repo', self.rel, self.line_at(pos), fn=self.qual)
